@@ -381,6 +381,9 @@ func (rp *reporter) violation(c *Case, r Rec) {
 	rp.ctx.Logf("outside the envelope: key=%s", key)
 	what := fmt.Sprintf("decoding a %d byte stream (/Filter %s /DecodeParms %s): outcome %s, %d bytes produced, %d KB allocated, %d us, %d goroutines left [%s]",
 		r.RawLen, valString(c.Filter), valString(c.Parms), r.Outcome, r.Produced, r.AllocKB, r.WallUs, r.Leaked, r.Note)
+	if c.Globals != nil {
+		what += fmt.Sprintf("; /JBIG2Globals 7 0 R -> stream (/Filter %s, %s) decoded by GetFilters through ReadAll (cap 8 MiB)", valString(c.Globals.Filter), c.Globals.BodyGen)
+	}
 	cc := *c
 	if cc.BodyGen == "" && cc.BodyHex == "" {
 		cc.BodyHex = hexOf(c.Body())
